@@ -4,6 +4,7 @@ with unbounded ints wherever those obligations are discharged)."""
 from __future__ import annotations
 
 import z3
+from .slicing import fold as _fold
 
 from .values import Unsupported
 
@@ -12,6 +13,13 @@ W = 512
 
 class IntTheory:
     name = "int"
+
+    def __init__(self):
+        self.pending = []       # facts about terms just built (drained into the path condition by the executor)
+
+    def take_axioms(self):
+        out, self.pending = self.pending, []
+        return out
 
     def const(self, name):
         return z3.Int(name)
@@ -23,7 +31,7 @@ class IntTheory:
         return isinstance(t, z3.ArithRef) and t.is_int()
 
     def as_const(self, t):
-        t = z3.simplify(t)
+        t = _fold(t)
         if z3.is_int_value(t):
             return t.as_long()
         return None
@@ -116,7 +124,7 @@ class BVTheory(IntTheory):
         return isinstance(t, z3.BitVecRef) and t.size() == W
 
     def as_const(self, t):
-        t = z3.simplify(t)
+        t = _fold(t)
         if z3.is_bv_value(t):
             return t.as_signed_long()
         return None
@@ -126,30 +134,42 @@ class BVTheory(IntTheory):
         hi = z3.BitVecVal((1 << (bits - 1)) - 1, W)
         return z3.And(x >= lo, x <= hi)
 
+    # codec mode keeps bit-vectors and reals apart: conversions are uninterpreted functions (only congruence is
+    # available), because bv2int/int2bv on 512-bit terms make every query that touches them intractable.
+    # Arithmetic that mixes ints and floats is verified in arithmetic mode.
     def to_real(self, t):
-        return z3.ToReal(z3.BV2Int(t, is_signed=True))
+        c = self.as_const(t)
+        if c is not None:
+            return z3.RealVal(c)
+        return z3.Function("codec.int2real", z3.BitVecSort(W), z3.RealSort())(t)
 
     def from_real_trunc(self, r):
-        i = z3.If(r >= 0, z3.ToInt(r), -z3.ToInt(-r))
-        return z3.Int2BV(i, W)
+        return z3.Function("codec.real2int_trunc", z3.RealSort(), z3.BitVecSort(W))(r)
 
     def floor_real(self, r):
-        return z3.Int2BV(z3.ToInt(r), W)
+        return z3.Function("codec.real2int_floor", z3.RealSort(), z3.BitVecSort(W))(r)
 
+    # division / modulo by anything but a power of two is an uninterpreted function in codec mode (512-bit
+    # bvsdiv makes queries intractable); only  0 <= a % c < c  for a constant c > 0 is kept.  Exact reasoning about
+    # such arithmetic belongs to arithmetic-mode contracts.
     def floordiv(self, a, b):
-        cb = self.as_const(b)
+        ca, cb = self.as_const(a), self.as_const(b)
+        if ca is not None and cb is not None and cb != 0:
+            return self.val(ca // cb)
         if cb is not None and cb > 0 and (cb & (cb - 1)) == 0:
             return a >> (cb.bit_length() - 1)
-        # floor division from truncating signed division
-        q = a / b
-        r = z3.SRem(a, b)
-        return z3.If(z3.And(r != 0, (r < 0) != (b < 0)), q - 1, q)
+        return z3.Function("codec.floordiv", z3.BitVecSort(W), z3.BitVecSort(W), z3.BitVecSort(W))(a, b)
 
     def mod(self, a, b):
-        cb = self.as_const(b)
+        ca, cb = self.as_const(a), self.as_const(b)
+        if ca is not None and cb is not None and cb != 0:
+            return self.val(ca % cb)
         if cb is not None and cb > 0 and (cb & (cb - 1)) == 0:
             return a & z3.BitVecVal(cb - 1, W)
-        return a - b * self.floordiv(a, b)
+        r = z3.Function("codec.mod", z3.BitVecSort(W), z3.BitVecSort(W), z3.BitVecSort(W))(a, b)
+        if cb is not None and cb > 0:
+            self.pending.append(z3.And(r >= 0, r < b))
+        return r
 
     def shl(self, a, k, obl):
         ck = self.as_const(k)
